@@ -101,6 +101,9 @@ func (c *Check) NCalls(fn *ssa.Function, rule, suffix string, n int) []*CallSite
 func (c *Check) Under(fn *ssa.Function, rule, label string, m Macros, at ssa.Instruction, wants ...string) bool {
 	a := c.P.FA(fn)
 	have := a.PathCondStrings(at.Block())
+	for _, x := range c.extraConds {
+		have[x] = true
+	}
 	ok := true
 	for _, w := range wants {
 		w = m.X(w)
@@ -134,6 +137,22 @@ func (c *Check) ArgIs(cs *CallSite, rule, label string, m Macros, i int, want st
 	}
 	want = m.X(want)
 	got := args[i].String()
+	if got != want {
+		// an equality established on every path to the call makes its two sides interchangeable
+		for _, pc := range c.P.FA(cs.Fn).PathConds(cs.Ins.Block()) {
+			if pc.Op != "bin" || pc.Name != "==" || len(pc.Args) != 2 {
+				continue
+			}
+			a, b := pc.Args[0].String(), pc.Args[1].String()
+			if len(a) < 3 || len(b) < 3 {
+				continue
+			}
+			if strings.ReplaceAll(got, a, b) == want || strings.ReplaceAll(got, b, a) == want {
+				got = want
+				break
+			}
+		}
+	}
 	return c.Req(got == want, rule, construct, cs.Ins.Pos(), m.Fold(got), fmt.Sprintf("argument %d of %s is %s, required origin %s", i, cs.Name, m.Fold(got), m.Fold(want)))
 }
 
@@ -292,6 +311,19 @@ func (c *Check) StaticCallers(target *ssa.Function) map[string]token.Pos {
 	return out
 }
 
+// fnByName finds the in-scope function with the given canonical name.
+func (c *Check) fnByName(name string) *ssa.Function {
+	if c.byName == nil {
+		c.byName = map[string]*ssa.Function{}
+		for fn := range c.P.AllFuncs {
+			if inScope(fn) {
+				c.byName[funcName(fn)] = fn
+			}
+		}
+	}
+	return c.byName[name]
+}
+
 func rootFn(fn *ssa.Function) *ssa.Function {
 	for fn.Parent() != nil {
 		fn = fn.Parent()
@@ -313,6 +345,21 @@ func (c *Check) WhoMayCall(rule string, target *ssa.Function, allowed ...string)
 		for _, a := range allowed {
 			if strings.HasSuffix(n, a) {
 				ok = true
+			}
+		}
+		if !ok {
+			// a helper that exists only inlined into other functions is judged by those functions
+			if f := c.fnByName(n); f != nil && c.P.Absorbed(f) {
+				ok = true
+				for _, o := range c.P.Owners(f) {
+					oneOK := false
+					for _, a := range allowed {
+						if strings.HasSuffix(o, a) {
+							oneOK = true
+						}
+					}
+					ok = ok && oneOK
+				}
 			}
 		}
 		c.Req(ok, rule, funcName(target)+" called-by "+n, callers[n], "allowed caller", fmt.Sprintf("%s is called from %s, which is not in the allowed set %v", funcName(target), n, allowed))
